@@ -1,0 +1,424 @@
+//! Verification seams (only compiled with `--cfg nexosim_verif`).
+//!
+//! This module is the single place through which the crate reaches the
+//! sources of nondeterminism that a deterministic simulator needs to own:
+//! threads, locks, atomics, thread-locals, thread parking, the wall clock used
+//! by the worker search loop and the heap addresses used as mailbox
+//! identifiers.
+//!
+//! With `--cfg nexosim_verif` alone every item re-exports its `std`/`parking`
+//! counterpart, so behaviour is unchanged. With `--cfg nexosim_verif_shuttle`
+//! in addition, the primitives are those of the `shuttle` crate, which runs
+//! all threads as coroutines under a scheduler owned by the test harness.
+//!
+//! Nothing in here is compiled in a regular build.
+#![allow(missing_docs, missing_debug_implementations, unreachable_pub, dead_code)]
+
+use std::cell::RefCell;
+use std::time::Duration;
+
+// -------------------------------------------------------------------------
+// Synchronization primitives.
+// -------------------------------------------------------------------------
+
+#[cfg(nexosim_verif_shuttle)]
+pub mod sync {
+    pub use shuttle::sync::{Condvar, Mutex, MutexGuard};
+    pub use std::sync::{Arc, LockResult, PoisonError, TryLockError, TryLockResult, Weak};
+
+    pub mod atomic {
+        pub use shuttle::sync::atomic::{
+            fence, AtomicBool, AtomicI64, AtomicIsize, AtomicPtr, AtomicU32, AtomicU64,
+            AtomicUsize, Ordering,
+        };
+    }
+}
+
+#[cfg(not(nexosim_verif_shuttle))]
+pub mod sync {
+    pub use std::sync::{
+        Arc, Condvar, LockResult, Mutex, MutexGuard, PoisonError, TryLockError, TryLockResult,
+        Weak,
+    };
+
+    pub mod atomic {
+        pub use std::sync::atomic::{
+            fence, AtomicBool, AtomicI64, AtomicIsize, AtomicPtr, AtomicU32, AtomicU64,
+            AtomicUsize, Ordering,
+        };
+    }
+}
+
+// -------------------------------------------------------------------------
+// Threads and thread-locals.
+// -------------------------------------------------------------------------
+
+#[cfg(nexosim_verif_shuttle)]
+pub mod thread {
+    pub use shuttle::thread::{spawn, yield_now, Builder, JoinHandle, LocalKey};
+}
+
+#[cfg(not(nexosim_verif_shuttle))]
+pub mod thread {
+    pub use std::thread::{spawn, yield_now, Builder, JoinHandle, LocalKey};
+}
+
+#[cfg(nexosim_verif_shuttle)]
+pub use shuttle::thread_local;
+#[cfg(not(nexosim_verif_shuttle))]
+pub use std::thread_local;
+
+/// The subset of the inherent `std::thread::LocalKey<Cell<T>>` methods used by
+/// this crate, for `shuttle`'s `LocalKey` which only has `with`.
+#[cfg(nexosim_verif_shuttle)]
+pub trait LocalKeyCellExt<T> {
+    fn get(&'static self) -> T
+    where
+        T: Copy;
+    fn set(&'static self, value: T);
+    fn replace(&'static self, value: T) -> T;
+    fn take(&'static self) -> T
+    where
+        T: Default;
+}
+
+#[cfg(nexosim_verif_shuttle)]
+impl<T: 'static> LocalKeyCellExt<T> for shuttle::thread::LocalKey<std::cell::Cell<T>> {
+    fn get(&'static self) -> T
+    where
+        T: Copy,
+    {
+        self.with(|c| c.get())
+    }
+    fn set(&'static self, value: T) {
+        self.with(|c| c.set(value))
+    }
+    fn replace(&'static self, value: T) -> T {
+        self.with(|c| c.replace(value))
+    }
+    fn take(&'static self) -> T
+    where
+        T: Default,
+    {
+        self.with(|c| c.take())
+    }
+}
+
+// -------------------------------------------------------------------------
+// Thread parking.
+// -------------------------------------------------------------------------
+
+#[cfg(not(nexosim_verif_shuttle))]
+pub mod parking {
+    pub use ::parking::{Parker, Unparker};
+}
+
+/// A token-based parker with the semantics of the `parking` crate, built on
+/// the simulated mutex and condition variable. `park_timeout` never sleeps:
+/// whether the time-out elapses is a decision of the harness (`Hooks`).
+#[cfg(nexosim_verif_shuttle)]
+pub mod parking {
+    use super::sync::{Arc, Condvar, Mutex};
+    use std::time::Duration;
+
+    struct Inner {
+        token: Mutex<bool>,
+        cvar: Condvar,
+    }
+
+    pub struct Parker {
+        unparker: Unparker,
+    }
+
+    #[derive(Clone)]
+    pub struct Unparker {
+        inner: Arc<Inner>,
+    }
+
+    impl Parker {
+        pub fn new() -> Self {
+            Self {
+                unparker: Unparker {
+                    inner: Arc::new(Inner {
+                        token: Mutex::new(false),
+                        cvar: Condvar::new(),
+                    }),
+                },
+            }
+        }
+
+        pub fn park(&self) {
+            let inner = &self.unparker.inner;
+            let mut token = inner.token.lock().unwrap();
+            while !*token {
+                token = inner.cvar.wait(token).unwrap();
+            }
+            *token = false;
+        }
+
+        /// Returns `true` if the token was consumed and `false` on time-out.
+        pub fn park_timeout(&self, _timeout: Duration) -> bool {
+            let inner = &self.unparker.inner;
+            let mut token = inner.token.lock().unwrap();
+            loop {
+                if *token {
+                    *token = false;
+                    return true;
+                }
+                if super::park_timeout_fires() {
+                    return false;
+                }
+                token = inner.cvar.wait(token).unwrap();
+            }
+        }
+
+        pub fn unparker(&self) -> Unparker {
+            self.unparker.clone()
+        }
+    }
+
+    impl Default for Parker {
+        fn default() -> Self {
+            Self::new()
+        }
+    }
+
+    impl Unparker {
+        pub fn unpark(&self) -> bool {
+            let mut token = self.inner.token.lock().unwrap();
+            let was_set = *token;
+            *token = true;
+            drop(token);
+            self.inner.cvar.notify_one();
+
+            !was_set
+        }
+    }
+
+    impl std::fmt::Debug for Parker {
+        fn fmt(&self, f: &mut std::fmt::Formatter<'_>) -> std::fmt::Result {
+            f.debug_struct("Parker").finish_non_exhaustive()
+        }
+    }
+    impl std::fmt::Debug for Unparker {
+        fn fmt(&self, f: &mut std::fmt::Formatter<'_>) -> std::fmt::Result {
+            f.debug_struct("Unparker").finish_non_exhaustive()
+        }
+    }
+}
+
+// -------------------------------------------------------------------------
+// Harness-controlled knobs, trace sink and reach probes.
+// -------------------------------------------------------------------------
+
+/// Ground-truth events reported to the harness.
+#[derive(Clone, Copy, Debug, PartialEq, Eq)]
+pub enum TraceEvent {
+    /// A message was successfully pushed into the mailbox with this identifier.
+    Pushed(usize),
+    /// A message was popped from the mailbox with this identifier.
+    Popped(usize),
+    /// The simulation time was written (seconds, nanoseconds).
+    TimeWritten(i64, u32),
+}
+
+/// Rare branches whose reach is reported in the evidence.
+#[derive(Clone, Copy, Debug, PartialEq, Eq)]
+#[repr(usize)]
+pub enum Probe {
+    /// A push found the mailbox full.
+    PushFull = 0,
+    /// A push found the mailbox closed.
+    PushClosed,
+    /// The last active worker found a non-empty injector and resumed.
+    LastWorkerRecheck,
+    /// The last active worker deactivated the pool.
+    LastWorkerParks,
+    /// A (non-last) worker parked.
+    WorkerParks,
+    /// A task was re-polled because it was woken while being polled.
+    RepollAfterWake,
+    /// A task scheduled for running was found cancelled (wind-down).
+    WindDownCancel,
+    /// A local queue overflowed to the injector.
+    BucketOverflow,
+    /// A worker stole tasks from a sibling.
+    StealSuccess,
+    /// A time read had to be retried.
+    SeqlockRetry,
+    /// The multi-recipient broadcast slow path was taken.
+    BroadcastSlowPath,
+    /// The worker search timer expired.
+    SearchExpired,
+    /// A step time-out was injected.
+    TimeoutInjected,
+    /// A receiver was resumed after waiting for a message.
+    RecvWaited,
+    /// Several same-key actions were chained in one sequence.
+    SeqActions,
+    /// A cancelled action was discarded from the scheduler queue.
+    CancelledDiscarded,
+}
+
+pub const PROBE_COUNT: usize = 16;
+
+/// Configuration installed by the harness for one simulated execution.
+pub struct Hooks {
+    /// Mailbox identifiers: if `Some(mask)`, the n-th mailbox created (n
+    /// starting at 0) gets identifier `1 + (n ^ mask)`; if `None`, the heap
+    /// address is used as in a regular build.
+    pub channel_id_mask: Option<usize>,
+    /// Worker search: if `Some(k)`, a worker gives up searching after `k`
+    /// unsuccessful rounds; if `None`, the wall clock is used as in a regular
+    /// build.
+    pub search_rounds: Option<u32>,
+    /// Step time-out: if `Some(n)`, the n-th (0-based) time a thread is about to
+    /// block in `park_timeout`, the time-out elapses instead.
+    pub timeout_at_block: Option<u32>,
+    /// Sink for ground-truth events.
+    pub trace: Option<std::sync::Arc<dyn Fn(TraceEvent) + Send + Sync>>,
+    // Internal state.
+    next_channel: usize,
+    blocks: u32,
+    probes: [u64; PROBE_COUNT],
+}
+
+impl Hooks {
+    pub const fn new() -> Self {
+        Self {
+            channel_id_mask: None,
+            search_rounds: None,
+            timeout_at_block: None,
+            trace: None,
+            next_channel: 0,
+            blocks: 0,
+            probes: [0; PROBE_COUNT],
+        }
+    }
+}
+
+impl Default for Hooks {
+    fn default() -> Self {
+        Self::new()
+    }
+}
+
+// Under the simulator all simulated threads of one execution share the OS
+// thread of their runner and different runners use different OS threads, so
+// the hook state is OS-thread-local. Otherwise one process runs one
+// simulation on real threads, so the state is process-global.
+#[cfg(nexosim_verif_shuttle)]
+std::thread_local! { static HOOKS: RefCell<Hooks> = const { RefCell::new(Hooks::new()) }; }
+#[cfg(nexosim_verif_shuttle)]
+fn with_hooks<R>(f: impl FnOnce(&mut Hooks) -> R) -> R {
+    HOOKS.with(|h| f(&mut h.borrow_mut()))
+}
+
+#[cfg(not(nexosim_verif_shuttle))]
+static HOOKS: std::sync::Mutex<Hooks> = std::sync::Mutex::new(Hooks::new());
+#[cfg(not(nexosim_verif_shuttle))]
+fn with_hooks<R>(f: impl FnOnce(&mut Hooks) -> R) -> R {
+    let _ = &RefCell::new(());
+    f(&mut HOOKS.lock().unwrap_or_else(|e| e.into_inner()))
+}
+
+/// Installs a fresh hook configuration (resets counters and probes).
+pub fn install(hooks: Hooks) {
+    with_hooks(|h| *h = hooks);
+}
+
+/// Removes the hook configuration and returns the probe counters.
+pub fn uninstall() -> [u64; PROBE_COUNT] {
+    with_hooks(|h| {
+        let probes = h.probes;
+        *h = Hooks::new();
+        probes
+    })
+}
+
+/// Returns the current probe counters.
+pub fn probes() -> [u64; PROBE_COUNT] {
+    with_hooks(|h| h.probes)
+}
+
+#[inline]
+pub(crate) fn probe(p: Probe) {
+    with_hooks(|h| h.probes[p as usize] += 1);
+}
+
+#[inline]
+pub(crate) fn trace(event: TraceEvent) {
+    // The sink is called outside of the hook state borrow so that it may
+    // itself use hooks.
+    let sink = with_hooks(|h| h.trace.clone());
+    if let Some(sink) = sink {
+        sink(event);
+    }
+}
+
+/// Returns a simulator-chosen mailbox identifier, or 0 if the heap address
+/// should be used.
+pub(crate) fn next_channel_id() -> usize {
+    with_hooks(|h| match h.channel_id_mask {
+        Some(mask) => {
+            let n = h.next_channel;
+            h.next_channel += 1;
+            1 + (n ^ mask)
+        }
+        None => 0,
+    })
+}
+
+#[cfg(nexosim_verif_shuttle)]
+shuttle::thread_local! { static SEARCH_ROUNDS: std::cell::Cell<u32> = std::cell::Cell::new(0); }
+#[cfg(not(nexosim_verif_shuttle))]
+std::thread_local! { static SEARCH_ROUNDS: std::cell::Cell<u32> = const { std::cell::Cell::new(0) }; }
+
+/// Marks the start of a worker's search for tasks.
+pub(crate) fn search_reset() {
+    SEARCH_ROUNDS.with(|c| c.set(0));
+}
+
+/// Called after an unsuccessful search round. Returns `Some(true)` if the
+/// worker should give up, `Some(false)` if it should retry, and `None` if the
+/// wall clock should decide as in a regular build.
+pub(crate) fn search_expired() -> Option<bool> {
+    let limit = with_hooks(|h| h.search_rounds)?;
+    let rounds = SEARCH_ROUNDS.with(|c| {
+        let r = c.get();
+        c.set(r + 1);
+        r
+    });
+    if rounds >= limit {
+        probe(Probe::SearchExpired);
+        Some(true)
+    } else {
+        spin_hint();
+        Some(false)
+    }
+}
+
+/// Tells the simulated scheduler that the caller is spinning.
+#[inline]
+pub(crate) fn spin_hint() {
+    #[cfg(nexosim_verif_shuttle)]
+    shuttle::thread::yield_now();
+    #[cfg(not(nexosim_verif_shuttle))]
+    std::hint::spin_loop();
+}
+
+/// Decides whether a `park_timeout` that is about to block times out instead.
+pub(crate) fn park_timeout_fires() -> bool {
+    let fires = with_hooks(|h| {
+        let n = h.blocks;
+        h.blocks += 1;
+        h.timeout_at_block == Some(n)
+    });
+    if fires {
+        probe(Probe::TimeoutInjected);
+    }
+    fires
+}
+
+#[allow(unused)]
+const _: Duration = Duration::ZERO;
